@@ -20,17 +20,26 @@ suite=$(go test -vet=off -count=1 ./... 2>&1 | grep -E "^(--- FAIL|FAIL|panic)" 
 echo "seedverify: demo without patch rc=$clean_rc, with patch rc=$patched_rc; suite failures beyond baseline: [${suite}]"
 tail -5 /tmp/seedverify.$$.patched | cut -c1-300
 cd /verif
+if [ -n "${SEEDVERIFY_WORKTREE:-}" ]; then
+  # /repo itself is busy (a re-check of other seeded changes is running there): run the check against the patched scratch worktree
+  git -C $W checkout -q -- . ; git -C $W clean -fdq; git -C $W apply "$PATCH" || exit 3
+  VERIF_REPO=$W /verif/bin/check run "$PROP" --tier quick > /tmp/seedverify.$$.check 2>&1; check_rc=$?
+  cleanup; trap - EXIT
+  HOW="VERIF_REPO=<scratch worktree with the patch> /verif/bin/check run $PROP --tier quick (later re-checked against /repo itself by tools/seedrecheck.sh: recheck_exit)"
+else
 cleanup; trap - EXIT
 if ! git -C /repo diff --quiet; then echo "seedverify: /repo dirty"; exit 3; fi
 git -C /repo apply "$PATCH" || exit 3
 /verif/bin/check run "$PROP" --tier quick > /tmp/seedverify.$$.check 2>&1; check_rc=$?
 git -C /repo checkout -- . && git -C /repo clean -fdq
+  HOW="git -C /repo apply, /verif/bin/check run $PROP --tier quick, git -C /repo checkout -- . && git -C /repo clean -fdq"
+fi
 grep -E "^violation class|^further violation|^check .* tier|HARNESS" /tmp/seedverify.$$.check | cut -c1-220
 echo "seedverify: $PROP $NAME -> check exit $check_rc (demo clean=$clean_rc patched=$patched_rc)"
 D=/verif/seeded/$PROP/$NAME; mkdir -p $D; cp "$PATCH" $D/patch.diff; cp "$DEMO" $D/$(basename "$DEST")
-python3 - "$D" "$PROP" "$NAME" "$DEST" "$CMD" "$clean_rc" "$patched_rc" "$check_rc" "$suite" /tmp/seedverify.$$.check "$(dirname "$PATCH")" "$(basename "$PATCH")" <<'PY'
+python3 - "$D" "$PROP" "$NAME" "$DEST" "$CMD" "$clean_rc" "$patched_rc" "$check_rc" "$suite" /tmp/seedverify.$$.check "$(dirname "$PATCH")" "$(basename "$PATCH")" "$HOW" <<'PY'
 import json,sys,re,os
-D,prop,name,dest,cmd,clean,patched,check,suite,checklog,srcdir,patchname=sys.argv[1:13]
+D,prop,name,dest,cmd,clean,patched,check,suite,checklog,srcdir,patchname,how=sys.argv[1:14]
 meta={}
 mi=os.path.join(srcdir, patchname.replace('patch','meta').replace('.diff','.json'))
 if os.path.exists(mi):
@@ -40,7 +49,7 @@ classes=[l.strip()[:200] for l in open(checklog, errors='replace') if l.startswi
 json.dump({"property":prop,"name":name,"breaks":meta.get("summary"),"needs":meta.get("needs"),
   "demo":{"file":os.path.basename(dest),"place_at":dest,"command":cmd,"exit_without_patch":int(clean),"exit_with_patch":int(patched)},
   "suite_failures_beyond_baseline":suite,
-  "what_i_ran":"tools/seedverify.sh: scratch worktree of /repo HEAD; demo run without and with the patch; go test -vet=off -count=1 ./... with the patch; then git -C /repo apply, /verif/bin/check run %s --tier quick, git -C /repo checkout -- . && git -C /repo clean -fdq"%prop,
+  "what_i_ran":"tools/seedverify.sh: scratch worktree of /repo HEAD; demo run without and with the patch; go test -vet=off -count=1 ./... with the patch; then "+how,
   "check_exit":int(check),"check_classes":classes,"author_meta":meta}, open(os.path.join(D,'meta.json'),'w'), indent=1)
 PY
 rm -f /tmp/seedverify.$$.*
